@@ -90,6 +90,7 @@ Section Total.
       pose proof (wf_ensure_sp v (Hs (negb slot) v Ev)) as Hw. destruct (ensure_sp c v) as [v' l]. cbn [fst snd] in *.
       split; [|discriminate]. apply slots_wf_put; [apply slots_wf_put; assumption|].
       apply wf_sp_update, wf_ensure_sp, (Hs slot u E).
+    - cbn [fst snd]. split; [apply with_sp_wf, Hs|discriminate].
   Qed.
 
   Fixpoint hfold (s : hstate) (ops : list op) : hstate :=
